@@ -1294,7 +1294,9 @@ private:
 
   bool _parseString(Json &out)
   {
-    if (_text[_pos] != '"')
+    // _parseObject calls this for a member name right after '{' or ',': the input
+    // may end there, so the bounds check must come before the read.
+    if (_pos >= _text.size() || _text[_pos] != '"')
     {
       _error = "Expected '\"'";
       return false;
